@@ -24,7 +24,8 @@
 From Coq Require Import ZArith List Bool Permutation.
 From V Require Import Model.ZMap Model.Quorum Model.Voting Model.VotingRef Model.HgImpl Model.HgBatch
   Proofs.VotingProofs Proofs.VotingTheorems Proofs.BatchRefute Proofs.AdmissionProofs Proofs.BlockInv
-  Proofs.OrderProofs Proofs.Static Proofs.Agreement Proofs.AgreementU Proofs.AdmitOrder Proofs.BlockAgree.
+  Proofs.OrderProofs Proofs.Static Proofs.Agreement Proofs.AgreementU Proofs.AdmitOrder Proofs.BlockAgree
+  Model.Window Proofs.GapWindow Proofs.RoundAgreeD Proofs.RoundReceivedD Proofs.OrderIndepD.
 Import ListNotations.
 Open Scope Z_scope.
 
@@ -106,6 +107,66 @@ Proof.
            u_strongly_see g all ID NA s1 s2 o1 o2 ops1 ops2 H1 H2 x w e1x e2x e1w e2w).
 Qed.
 Print Assumptions C03_strongly_see_function_of_ancestry.
+
+(* THE SAME UNDER DYNAMIC MEMBERSHIP (no [no_accept]); code after fix 05eda0b.
+   - Lamport timestamps never read a validator set: they are a function of the ancestry for ANY two nodes over one
+     universe, with no membership premise at all (C03_lamport_function_of_ancestry_dynamic).
+   - Round, witness flag, strongly-see and round-received read the validator-set table: they are functions of the
+     ancestry AND OF THE TABLE: any two nodes (any selfs, insertion orders, cuts, genesis sets) that respect the distance
+     bound [gap_runb] and whose tables agree on the rounds both have ([tables_agree]) assign the same values to the
+     events they share.  Without the bound they do not: C01_dynamic_fork_by_scheduling. *)
+Theorem C03_lamport_function_of_ancestry_dynamic :
+  forall all self1 self2 genesis1 genesis2 oracle1 oracle2 ops1 ops2 x e1 e2,
+  ids_determine all -> Forall (hop_ok all) ops1 -> Forall (hop_ok all) ops2 ->
+  failed (hrun (init_hg self1 genesis1 oracle1) ops1) = false -> failed (hrun (init_hg self2 genesis2 oracle2) ops2) = false ->
+  get_event (hrun (init_hg self1 genesis1 oracle1) ops1) x = Some e1 ->
+  get_event (hrun (init_hg self2 genesis2 oracle2) ops2) x = Some e2 ->
+  ev_lt e1 = ev_lt e2 /\ ev_lt e1 <> None.
+Proof. exact lamport_agree_any. Qed.
+Print Assumptions C03_lamport_function_of_ancestry_dynamic.
+
+Theorem C03_round_function_of_ancestry_dynamic :
+  forall all self1 self2 genesis1 genesis2 oracle1 oracle2 ops1 ops2 x e1 e2,
+  ids_determine all -> self1 <> -1 -> self2 <> -1 ->
+  Forall (hop_ok all) ops1 -> Forall (hop_ok all) ops2 ->
+  gap_runb (init_hg self1 genesis1 oracle1) ops1 = true -> gap_runb (init_hg self2 genesis2 oracle2) ops2 = true ->
+  let st1 := hrun (init_hg self1 genesis1 oracle1) ops1 in
+  let st2 := hrun (init_hg self2 genesis2 oracle2) ops2 in
+  failed st1 = false -> failed st2 = false -> tables_agree st1 st2 ->
+  get_event st1 x = Some e1 -> get_event st2 x = Some e2 ->
+  ev_round e1 = ev_round e2 /\ ev_round e1 <> None /\
+  zget x (round_memo st1) = zget x (round_memo st2) /\ zget x (witness_memo st1) = zget x (witness_memo st2).
+Proof. exact (fun all s1 s2 g1 g2 o1 o2 ops1 ops2 x e1 e2 ID S1 S2 H1 H2 B1 B2 F1 F2 T =>
+                gap_round_agree all s1 s2 g1 g2 o1 o2 ops1 ops2 ID S1 S2 H1 H2 B1 B2 F1 F2 T x e1 e2). Qed.
+Print Assumptions C03_round_function_of_ancestry_dynamic.
+
+Theorem C03_strongly_see_function_of_ancestry_dynamic :
+  forall all self1 self2 genesis1 genesis2 oracle1 oracle2 ops1 ops2 g x w e1x e2x e1w e2w,
+  ids_determine all -> self1 <> -1 -> self2 <> -1 ->
+  Forall (hop_ok all) ops1 -> Forall (hop_ok all) ops2 ->
+  gap_runb (init_hg self1 genesis1 oracle1) ops1 = true -> gap_runb (init_hg self2 genesis2 oracle2) ops2 = true ->
+  let st1 := hrun (init_hg self1 genesis1 oracle1) ops1 in
+  let st2 := hrun (init_hg self2 genesis2 oracle2) ops2 in
+  failed st1 = false -> failed st2 = false -> tables_agree st1 st2 ->
+  get_event st1 x = Some e1x -> get_event st2 x = Some e2x ->
+  get_event st1 w = Some e1w -> get_event st2 w = Some e2w ->
+  strongly_see st1 x w g = strongly_see st2 x w g /\ strongly_see st1 x w g <> None.
+Proof. exact (fun all s1 s2 g1 g2 o1 o2 ops1 ops2 g x w e1x e2x e1w e2w ID S1 S2 H1 H2 B1 B2 F1 F2 T =>
+                gap_strongly_see_agree all s1 s2 g1 g2 o1 o2 ops1 ops2 ID S1 S2 H1 H2 B1 B2 F1 F2 T g x w e1x e2x e1w e2w). Qed.
+Print Assumptions C03_strongly_see_function_of_ancestry_dynamic.
+
+Theorem C03_round_received_function_of_ancestry_dynamic :
+  forall all self1 self2 genesis1 genesis2 oracle1 oracle2 ops1 ops2 x e1 e2 i1 i2,
+  ids_determine all -> fork_free all -> self1 <> -1 -> self2 <> -1 ->
+  Forall (hop_ok all) ops1 -> Forall (hop_ok all) ops2 ->
+  gap_runb (init_hg self1 genesis1 oracle1) ops1 = true -> gap_runb (init_hg self2 genesis2 oracle2) ops2 = true ->
+  let st1 := hrun (init_hg self1 genesis1 oracle1) ops1 in
+  let st2 := hrun (init_hg self2 genesis2 oracle2) ops2 in
+  failed st1 = false -> failed st2 = false -> tables_agree st1 st2 ->
+  get_event st1 x = Some e1 -> get_event st2 x = Some e2 ->
+  ev_rr e1 = Some i1 -> ev_rr e2 = Some i2 -> i1 = i2.
+Proof. exact rr_agreement_gap_universe. Qed.
+Print Assumptions C03_round_received_function_of_ancestry_dynamic.
 
 (* The full statements *)
 Definition is_topological (evs : list event) : Prop :=
